@@ -17,10 +17,9 @@ Inductive pull := PItem (z : Z) (s : lseq) | PStop | PDiv.
 Definition lnext (s : lseq) : pull :=
   match pre s with
   | x :: p => PItem x (LS p (cyc s) (dv s))
-  | [] => if dv s then PDiv else
-          match cyc s with
-          | [] => PStop
-          | x :: c => PItem x (LS [] (c ++ [x]) false)
+  | [] => match cyc s with
+          | x :: c => PItem x (LS c (cyc s) (dv s))     (* start the next period *)
+          | [] => if dv s then PDiv else PStop
           end
   end.
 
